@@ -220,6 +220,9 @@ class Validator:
     def validate(self, d, cfg, trace_path, ninst=1, timeout=2400, invs=()):
         name = self.trace_module(d, cfg, ninst, invs)
         rc, out, t = tlc.run_tlc(self.dir, name, trace=os.path.abspath(trace_path), workers=1, timeout=timeout)
+        if rc in (-9, 137):       # killed from outside (memory pressure): try once more
+            time.sleep(20)
+            rc, out, t = tlc.run_tlc(self.dir, name, trace=os.path.abspath(trace_path), workers=1, timeout=timeout)
         st = tlc.parse_stats(out)
         if "maxl" not in st:
             raise ToolError("TLC did not report acceptance register for %s (rc=%d):\n%s" % (trace_path, rc, out[-3000:]))
